@@ -8,6 +8,7 @@ package upstream_test
 import (
 	"context"
 	"fmt"
+	"regexp"
 	"sync"
 	"sync/atomic"
 	"testing"
@@ -18,8 +19,10 @@ import (
 	"vfkit"
 )
 
+var vfC20Label = regexp.MustCompile(`^g[0-9]+q[0-9]+r[0-9]+$`)
+
 func TestVfC20TransportHammer(t *testing.T) {
-	st := vfkit.Stats("TestVfC20TransportHammer", "per upstream kind (all 8): 4-24 goroutines x 20-60 exchanges with deadlines of 1-50 ms against a server that answers after 0-60 ms, never, or kills the connection, with connection kills injected from the side; built with -race -tags verif; oracle: no data race report, no canary (double release / write after release), every returned message carries the caller's ID and the question it asked; non-trivial = run with >= 10 exchanges that ended by their deadline and >= 10 that succeeded")
+	st := vfkit.Stats("TestVfC20TransportHammer", "per upstream kind (all 8): 4-24 goroutines x 20-60 exchanges with deadlines of 1-50 ms against a server that answers after 0-60 ms, never, or kills the connection, with connection kills injected from the side; built with -race -tags verif; oracle: no data race report, no canary (double release / write after release), every returned message carries the caller's ID and the question it asked, and every complete message or HTTP request the server received is a query somebody sent (in half of the runs the server stalls new handshakes for 5-40 ms, so queries are still unwritten when their exchanges give up); non-trivial = run with >= 10 exchanges that ended by their deadline and >= 10 that succeeded")
 	defer vfkit.Flush()
 	_, leaf := vfTLSMaterial()
 	rapid.Check(t, func(t *rapid.T) {
@@ -48,6 +51,11 @@ func TestVfC20TransportHammer(t *testing.T) {
 			t.Fatalf("fake server: %v", err)
 		}
 		defer srv.Close()
+		// in half of the runs every new stream connection's handshake stalls for a while on the server's side, so that
+		// exchanges run out of time while their query has not even been written
+		if hs := rapid.SampledFrom([]int{0, 0, 5, 15, 40}).Draw(t, "handshakeStallMs"); hs > 0 {
+			srv.AcceptDelay.Store(int64(time.Duration(hs) * time.Millisecond))
+		}
 		u := vfNewUpstream(t, kind, srv.Port, 0)
 		stop := make(chan struct{})
 		if killEvery > 0 {
@@ -110,6 +118,21 @@ func TestVfC20TransportHammer(t *testing.T) {
 		}
 		if b := bad.Load(); b != nil {
 			t.Fatalf("%v", b)
+		}
+		// the server's side: whatever arrived complete is a query somebody sent - not the content of a buffer that was
+		// given back (and refilled by the hook, or by another exchange) before the transport got round to writing it
+		time.Sleep(20 * time.Millisecond)
+		if br := srv.BadHTTP(); len(br) > 0 {
+			t.Fatalf("%s: the server received %d complete HTTP request(s) whose dns parameter is not base64url, e.g. %s", kind, len(br), br[0])
+		}
+		for _, q := range srv.Queries() {
+			if q.Msg.Err != nil || len(q.Msg.Q) != 1 {
+				t.Fatalf("%s: the server received a complete message that is no query anybody sent: %s", kind, vfkit.Hex(q.Raw))
+			}
+			nm := q.Msg.Q[0].Name
+			if len(nm) != 2 || string(nm[1]) != "c20" || !vfC20Label.Match(nm[0]) {
+				t.Fatalf("%s: the server received a query for %s, which nobody asked: %s", kind, nm, vfkit.Hex(q.Raw))
+			}
 		}
 		st.Class("succeeded", int(okN.Load()))
 		st.Class("ended-by-deadline", int(deadlineN.Load()))
